@@ -34,6 +34,9 @@ Depth1 ==
   {S1(kd, "T", v, o) : kd \in ScalKinds, v \in TScal, o \in ScalLeaves}
   \cup {S1(kd, "int", v, o) : kd \in ScalKinds, v \in IScal, o \in ScalLeaves}
   \cup {S1(kd, t, v, o) : kd \in ScalKinds, t \in {"uint", "ulong"}, v \in {RTwo, FromInt(3)}, o \in {Xn(1), Dn(1)}}
+  \* the scalars where shortcuts lurk: 0 and 1 (no division by 0)
+  \cup {S1(kd, t, v, o) : kd \in ScalKinds \ {"Div"}, t \in {"T", "int"}, v \in {RZero}, o \in ScalLeaves}
+  \cup {S1(kd, "T", ROne, o) : kd \in ScalKinds, o \in {Xn(1), SplLeaf}}
   \cup {Neg(o) : o \in Leaves}
   \cup {B2(kd, l, r) : kd \in {"Prod", "Sum", "Diff"}, l \in Leaves, r \in Leaves}
 \* every ordered pair of unary wrappers (scalar forms and unary minus) around a
@@ -114,7 +117,8 @@ ExprCases(e) ==
        \cup {[op |-> "OpApply", tag |-> "expr", ast |-> e, a |-> OneVar(S, 1), fs |-> <<f>>, fshare |-> 0] :
                S \in {SupWhole(E4), Sup(E4, 1, 3)}, f \in {x \in FactorsO(E4, VoOf(e)) : x.s = 0}}
        \* factor on a logically different grid: refused iff the operand has an interval (C08)
-       \cup (IF e \in {SplLeaf, B2("Prod", SplLeaf, Dn(1)), B2("Sum", Dn(2), SplLeaf), S1("ScalL", "T", RTwo, SplLeaf)}
+       \cup (IF e \in {SplLeaf, B2("Prod", SplLeaf, Dn(1)), B2("Sum", Dn(2), SplLeaf), S1("ScalL", "T", RTwo, SplLeaf),
+                       S1("ScalL", "T", RZero, SplLeaf), S1("ScalR", "int", RZero, SplLeaf), S1("ScalL", "T", ROne, SplLeaf)}
              THEN {[op |-> "OpApply", tag |-> "foreign", ast |-> e, a |-> OneVar(S, 1), fs |-> <<f>>, fshare |-> 0] :
                      S \in SupportsOn(E4), f \in ForeignFactors(E4)}
              ELSE {})
@@ -122,8 +126,11 @@ ExprCases(e) ==
 \* bilinear forms: operator pairs x spline pairs
 BFOps == IF Thorough
          THEN {Id, Dn(1), Dn(2), Xn(1), Xn(2), B2("Prod", Xn(1), Dn(1)), B2("Sum", Dn(2), Xn(1)), SplLeaf,
-               S1("ScalL", "T", R(-1, 2), B2("Prod", SplLeaf, Dn(1))), S1("Div", "T", RTwo, Dn(1))}
-         ELSE {Id, Dn(1), Xn(1), B2("Sum", Dn(2), Xn(1)), SplLeaf}
+               S1("ScalL", "T", R(-1, 2), B2("Prod", SplLeaf, Dn(1))), S1("Div", "T", RTwo, Dn(1)),
+               S1("SubSR", "uint", RTwo, Xn(1)), S1("SubSL", "ulong", FromInt(3), Dn(1)), S1("ScalL", "T", RZero, SplLeaf)}
+         ELSE {Id, Dn(1), Xn(1), B2("Sum", Dn(2), Xn(1)), SplLeaf,
+               \* scalars of unsigned built-in types inside forms
+               S1("SubSR", "uint", RTwo, Xn(1)), S1("SubSL", "ulong", FromInt(3), Dn(1))}
 BFOrders == IF Thorough THEN 0..3 ELSE 0..2
 BFCases(e1) ==
   {[op |-> "OpBF", tag |-> "bf", e1 |-> e1, e2 |-> e2, a |-> OneVar(Sa, oa), b |-> OneVar(Sb, ob),
@@ -132,7 +139,7 @@ BFCases(e1) ==
   \cup (IF e1 \in {Id, SplLeaf}
         THEN {[op |-> "OpBF", tag |-> "foreign", e1 |-> e1, e2 |-> e2, a |-> OneVar(Sa, 1), b |-> OneVar(Sb, 1),
                fs |-> <<f>>, fshare |-> 0] :
-                e2 \in {SplLeaf, Id}, Sa \in SupportsOn(E4), Sb \in {SupWhole(E4), Sup(E4, 0, 2), SupEmptyOn(E4)},
+                e2 \in {SplLeaf, Id, S1("ScalL", "T", RZero, SplLeaf)}, Sa \in SupportsOn(E4), Sb \in {SupWhole(E4), Sup(E4, 0, 2), SupEmptyOn(E4)},
                 f \in ForeignFactors(E4)}
         ELSE {})
 
